@@ -1,0 +1,249 @@
+//go:build verif
+
+package dragonboat
+
+import (
+	"sync"
+
+	"github.com/lni/dragonboat/v4/client"
+	"github.com/lni/dragonboat/v4/config"
+	"github.com/lni/dragonboat/v4/internal/rsm"
+	pb "github.com/lni/dragonboat/v4/raftpb"
+	sm "github.com/lni/dragonboat/v4/statemachine"
+)
+
+// White-box access for the C12 verification harness (pending request tables).
+// Compiled only with -tags verif. Every method below calls exactly one method
+// of the real tables (one critical section / one channel operation), the way
+// node.go and engine.go call them; nothing is re-implemented here except the
+// three lines of node.handleReadIndex that sit between two critical sections
+// (VerifTakeReads / VerifAddReads).
+
+// VerifC12 is one node's set of pending request tables wired as newNode does.
+type VerifC12 struct {
+	Pool  *sync.Pool
+	pq    *entryQueue
+	rq    *readIndexQueue
+	pp    pendingProposal
+	pr    pendingReadIndex
+	pc    pendingConfigChange
+	psn   pendingSnapshot
+	pl    pendingRaftLogQuery
+	ccC   chan configChangeRequest
+	ssC   chan rsm.SSRequest
+	taken []*RequestState
+}
+
+// NewVerifC12 builds the tables with ps proposal shards and the given queue sizes.
+func NewVerifC12(ps uint64, notifyCommit bool, pqSize uint64, rqSize uint64) *VerifC12 {
+	v := &VerifC12{}
+	p := &sync.Pool{}
+	p.New = func() interface{} {
+		// as NodeHost.createPools
+		obj := &RequestState{}
+		obj.CompletedC = make(chan RequestResult, 1)
+		obj.pool = p
+		if notifyCommit {
+			obj.committedC = make(chan RequestResult, 1)
+		}
+		return obj
+	}
+	v.Pool = p
+	v.pq = newEntryQueue(pqSize, 0)
+	v.rq = newReadIndexQueue(rqSize)
+	v.ccC = make(chan configChangeRequest, 1)
+	v.ssC = make(chan rsm.SSRequest, 1)
+	old := pendingProposalShards
+	pendingProposalShards = ps
+	v.pp = newPendingProposal(config.Config{ShardID: 1, ReplicaID: 1}, notifyCommit, p, v.pq)
+	pendingProposalShards = old
+	v.pr = newPendingReadIndex(p, v.rq)
+	v.pc = newPendingConfigChange(v.ccC, notifyCommit)
+	v.psn = newPendingSnapshot(v.ssC)
+	v.pl = newPendingRaftLogQuery()
+	return v
+}
+
+// VerifC12ErrCode maps the request errors to small integers:
+// 0 ok, 1 ErrShardClosed, 2 ErrSystemBusy, 3 ErrTimeoutTooSmall, 9 other.
+func VerifC12ErrCode(err error) int {
+	switch err {
+	case nil:
+		return 0
+	case ErrShardClosed:
+		return 1
+	case ErrSystemBusy:
+		return 2
+	case ErrTimeoutTooSmall:
+		return 3
+	}
+	return 9
+}
+
+// client side
+
+func (v *VerifC12) Propose(clientID, seriesID, key, timeout uint64) (*RequestState, error) {
+	s := &client.Session{ShardID: 1, ClientID: clientID, SeriesID: seriesID}
+	// pendingProposal.propose with the key chosen by the caller instead of nextKey
+	pp := v.pp.shards[key%v.pp.ps]
+	return pp.propose(s, nil, key, timeout)
+}
+func (v *VerifC12) Read(timeout uint64) (*RequestState, error) { return v.pr.read(timeout) }
+func (v *VerifC12) RequestConfigChange(timeout uint64) (*RequestState, error) {
+	return v.pc.request(pb.ConfigChange{Type: pb.AddNode, ReplicaID: 2, Address: "a"}, timeout)
+}
+func (v *VerifC12) RequestSnapshot(timeout uint64) (*RequestState, error) {
+	return v.psn.request(rsm.UserRequested, "", false, 0, 0, timeout)
+}
+func (v *VerifC12) QueryRaftLog(first, last uint64) (*RequestState, error) {
+	return v.pl.add(first, last, 1024)
+}
+
+// step worker
+
+func (v *VerifC12) TakeProposals(paused bool) int { return len(v.pq.get(paused)) }
+
+// VerifTakeReads is the first line of node.handleReadIndex.
+func (v *VerifC12) TakeReads() int {
+	if len(v.taken) > 0 {
+		return -1
+	}
+	reqs := v.rq.get()
+	v.taken = append([]*RequestState{}, reqs...)
+	return len(v.taken)
+}
+
+// VerifAddReads is pendingReadIndexes.add(ctx, reqs) of node.handleReadIndex.
+func (v *VerifC12) AddReads(low, high uint64) {
+	if len(v.taken) == 0 {
+		return
+	}
+	reqs := v.taken
+	v.taken = nil
+	v.pr.add(pb.SystemCtx{Low: low, High: high}, reqs)
+}
+func (v *VerifC12) Taken() int { return len(v.taken) }
+func (v *VerifC12) AddReady(low, high, index uint64) {
+	v.pr.addReady([]pb.ReadyToRead{{Index: index, SystemCtx: pb.SystemCtx{Low: low, High: high}}})
+}
+func (v *VerifC12) ReadsApplied(applied uint64) { v.pr.applied(applied) }
+func (v *VerifC12) ReadsDropped(low, high uint64) {
+	v.pr.dropped(pb.SystemCtx{Low: low, High: high})
+}
+
+// Tick is the table part of node.tick.
+func (v *VerifC12) Tick(tick uint64) {
+	v.psn.tick(tick)
+	v.pp.tick(tick)
+	v.pr.tick(tick)
+	v.pc.tick(tick)
+}
+func (v *VerifC12) GcProposals(shard uint64) { v.pp.shards[shard%v.pp.ps].gc() }
+func (v *VerifC12) GcConfigChange()          { v.pc.gc() }
+func (v *VerifC12) GcSnapshot()              { v.psn.gc() }
+func (v *VerifC12) DroppedProposal(clientID, seriesID, key uint64) {
+	v.pp.dropped(clientID, seriesID, key)
+}
+func (v *VerifC12) DroppedConfigChange(key uint64) { v.pc.dropped(key) }
+func (v *VerifC12) TakeConfigChange() bool {
+	select {
+	case _, ok := <-v.ccC:
+		return ok
+	default:
+	}
+	return false
+}
+func (v *VerifC12) TakeSnapshotRequest() bool {
+	select {
+	case <-v.ssC:
+		return true
+	default:
+	}
+	return false
+}
+func (v *VerifC12) LogQueryReturned(outOfRange bool, first, last uint64) {
+	v.pl.returned(outOfRange, LogRange{FirstIndex: first, LastIndex: last}, nil)
+}
+
+// apply and commit workers
+
+func (v *VerifC12) Applied(clientID, seriesID, key, value uint64, rejected bool) {
+	v.pp.applied(clientID, seriesID, key, sm.Result{Value: value}, rejected)
+}
+func (v *VerifC12) ConfigChangeApplied(key uint64, rejected bool) { v.pc.apply(key, rejected) }
+func (v *VerifC12) SnapshotApplied(key uint64, ignored, aborted bool, index uint64) {
+	v.psn.apply(key, ignored, aborted, index)
+}
+func (v *VerifC12) CommittedProposal(clientID, seriesID, key uint64) {
+	v.pp.committed(clientID, seriesID, key)
+}
+func (v *VerifC12) CommittedConfigChange(key uint64) { v.pc.committed(key) }
+
+// node.close(), one table at a time and in its order
+
+func (v *VerifC12) CloseReads()                 { v.pr.close() }
+func (v *VerifC12) CloseProposals(shard uint64) { v.pp.shards[shard%v.pp.ps].close() }
+func (v *VerifC12) CloseConfigChange()          { v.pc.close() }
+func (v *VerifC12) CloseSnapshot()              { v.psn.close() }
+func (v *VerifC12) CloseLogQuery()              { v.pl.close() }
+
+// VerifC12Sizes are the table sizes: proposals pending (all shards), entries in
+// the proposal queue, reads queued, read batches, read requests in batches,
+// pending config change / snapshot / log query (0 or 1).
+func (v *VerifC12) Sizes() [8]int {
+	var r [8]int
+	for _, s := range v.pp.shards {
+		s.mu.Lock()
+		r[0] += len(s.pending)
+		s.mu.Unlock()
+	}
+	v.pq.mu.Lock()
+	r[1] = int(v.pq.idx)
+	v.pq.mu.Unlock()
+	r[2] = int(v.rq.pendingSize())
+	v.pr.mu.Lock()
+	r[3] = len(v.pr.batches)
+	for _, b := range v.pr.batches {
+		for _, q := range b.requests {
+			if q != nil {
+				r[4]++
+			}
+		}
+	}
+	v.pr.mu.Unlock()
+	v.pc.mu.Lock()
+	if v.pc.pending != nil {
+		r[5] = 1
+	}
+	v.pc.mu.Unlock()
+	v.psn.mu.Lock()
+	if v.psn.pending != nil {
+		r[6] = 1
+	}
+	v.psn.mu.Unlock()
+	if v.pl.get() != nil {
+		r[7] = 1
+	}
+	return r
+}
+
+// request objects and results
+
+func VerifC12Chans(r *RequestState) (chan RequestResult, chan RequestResult) {
+	return r.CompletedC, r.committedC
+}
+func VerifC12Key(r *RequestState) uint64            { return r.key }
+func VerifC12ReadyToRelease(r *RequestState) bool   { return r.readyToRelease.ready() }
+func VerifC12Poolable(r *RequestState) bool         { return r.pool != nil }
+func VerifC12ResultCode(rr RequestResult) int       { return int(rr.code) }
+func VerifC12ResultRange(rr RequestResult) LogRange { return rr.logRange }
+
+// VerifC12BorrowCommitted / VerifC12NotifyCommitted are the two halves of
+// proposalShard.committed at its lock boundary (the proposal is looked up
+// under the shard lock, the notification is sent after the lock is released);
+// only used to replay that interleaving.
+func (v *VerifC12) BorrowCommitted(clientID, seriesID, key uint64) *RequestState {
+	p := v.pp.shards[key%v.pp.ps]
+	return p.borrowProposal(clientID, seriesID, key, p.getTick())
+}
+func VerifC12NotifyCommitted(r *RequestState) { r.committed() }
